@@ -220,6 +220,8 @@ class World:
     def const_val(self, pyvalue):
         """Distinct Val constant for a concrete Python value (by repr)."""
         k = repr(pyvalue)
+        if " object at 0x" in k:
+            raise OutsideSubset(f"value without a stable symbolic name: {k[:80]}")
         c = self.const_cache.get(k)
         if c is None:
             c = self.const_cache[k] = z3.Const(f"py:{k[:40]}#{len(self.const_cache)}", Val)
@@ -238,6 +240,8 @@ class World:
             return inj(v.e)
         if isinstance(v, Obj):
             return self.const_val(("obj", id(v)))
+        if hasattr(v, "z_val"):
+            return v.z_val(self)
         if isinstance(v, (list, tuple)):
             if any(isinstance(x, (Sym, Obj)) for x in v):
                 f = self.uf_raw(f"seq{len(v)}_{type(v).__name__}", [Val] * len(v), Val)
